@@ -18,6 +18,7 @@ RULE = ("case = (format, n_frames 1-24, n_atoms, cell, request) with request in 
         "iteration, no timeouts); non-trivial = stride>1 or skip>0 or chunk not dividing n or chunk%stride!=0 or atom subset or >1 file")
 ENUM_SCOPE = ("iterload grid: every format x n_frames in N x chunk in 0..n+2 x stride in 1..4 x skip in 0..n "
               "(quick: N={5}; thorough: N=1..10), swept completely")
+RULE += ("; widened: files of 513-1030 frames, files written by other programs (stored test data, shuffled LAMMPS rows, TRR velocity / force blocks, fixed-atom DCD), atom_indices in the caller's order, load([file, file-reversed], discard_overlapping_frames=True/False) against the documented overlap rule")
 QUICK = {"examples": 500, "shards": 12, "budget_s": 100}
 THOROUGH = {"examples": 4000, "shards": 16, "budget_s": 1500}
 ASSUMPTIONS = ["the reference is mdtraj's own full load of the same file, so format precision cancels and equality is exact",
